@@ -110,6 +110,7 @@ SetFl(S, k, f) == [S EXCEPT !.flows[k] = f]
 PutH(S, k, h) == [S EXCEPT !.flows[k].heads[HIdx(Fl(S, k), h.hid)] = h]
 Listening(f) == f.status \in {"WAITING", "STARTING", "STARTED"}
 ActiveFlow(f) == f.status \in {"STARTING", "STARTED"}            \* is_active_flow
+DoneF(f) == f.status \in {"STOPPED", "FINISHED"}
 ElAtHead(S, k, hid) == LET h == Hd(S, k, hid) IN
                        IF h.pos >= 0 /\ h.pos < NEl(Fl(S, k).fid) THEN El(Fl(S, k).fid, h.pos) ELSE [k |-> "none"]
 
@@ -660,9 +661,13 @@ FailHeads(S, fs, ms) ==              \* heads with a mismatch: forward to the fa
 ProcessEvent(S0, event, actionable) ==
   LET activeLoops == {S0.flows[k].loop : k \in {q \in 1..Len(S0.flows) : Listening(S0.flows[q])}}
       \* _process_internal_events_without_default_matchers (slice 1: StartFlow of a known flow other than main)
+      \* (a start whose source flow - another flow - has ended in the meantime is dropped: the parent was stopped while the start was pending)
+      srcDone == event.name = "StartFlow" /\ "source_flow_instance_uid" \in ArgKeys(event.args) /\ "flow_id" \in ArgKeys(event.args)
+                 /\ LET q == UidToInst(S0, ArgVal(event.args, "source_flow_instance_uid")) IN
+                    q # 0 /\ <<"s", Fl(S0, q).fid>> # ArgVal(event.args, "flow_id") /\ DoneF(Fl(S0, q))
       isStart == event.name = "StartFlow" /\ "flow_id" \in ArgKeys(event.args) /\ ArgVal(event.args, "flow_id")[1] = "s"
                  /\ HasCfg(ArgVal(event.args, "flow_id")[2]) /\ ArgVal(event.args, "flow_id")[2] # "main"
-                 /\ "flow_instance_uid" \in ArgKeys(event.args)
+                 /\ "flow_instance_uid" \in ArgKeys(event.args) /\ ~srcDone
       sfid   == ArgVal(event.args, "flow_id")[2]
       wantsAct == "activated" \in ArgKeys(event.args) /\ Truthy(ArgVal(event.args, "activated"))
       \* _get_reference_activated_flow_instance (no parameters in the fragment): first activated instance of that flow whose parent is another flow
@@ -815,7 +820,6 @@ DropUnreferencedActions(S) ==
   [S EXCEPT !.actions = [a \in 1..Len(@) |-> IF \E k \in 1..Len(S.flows) : S.flows[k].status # "GONE" /\ a \in Range(S.flows[k].actions)
                                                THEN @[a] ELSE [@[a] EXCEPT !.status = "DELETED"]]]
 (* _clean_up_state, the age-dependent part *)
-DoneF(f) == f.status \in {"STOPPED", "FINISHED"}
 RefParents(S) == {S.flows[k].parent : k \in {q \in 1..Len(S.flows) : S.flows[q].status # "GONE" /\ S.flows[q].parent # 0
                                                                        /\ (~DoneF(S.flows[q]) \/ S.flows[q].activated > 0)}}
 Removable(S) == {k \in 1..Len(S.flows) : DoneF(S.flows[k]) /\ S.flows[k].old /\ S.flows[k].activated = 0 /\ k \notin RefParents(S)}
